@@ -89,18 +89,22 @@ theorem search_unique (s : Set) (q : Nat) (hm : Mono s q) (i : Nat) (hi : i ≤ 
   · have := h2 i hgt
     rw [ha (by omega)] at this; cases this
 
+theorem getD_eq_getElem (s : Set) (j : Nat) (hj : j < s.length) : s.getD j zeroR = s[j] := by
+  simp only [List.getD, hj, getElem?_pos, Option.getD_some]
+
+theorem getD_mem (s : Set) (j : Nat) (hj : j < s.length) : s.getD j zeroR ∈ s := by
+  rw [getD_eq_getElem s j hj]; exact List.getElem_mem hj
+
 /-- in a canonical set, the element at any position but the first is above the bound -/
 theorem CanonFrom.getD_start {s : Set} : ∀ {lo : Nat}, CanonFrom lo s → ∀ j, j < s.length →
     (s.getD j zeroR).start = 0 ∨ lo < (s.getD j zeroR).start := by
   intro lo h j hj
-  have hm : s.getD j zeroR ∈ s := by
-    rw [List.getD_eq_getElem s zeroR hj]; exact List.getElem_mem hj
+  have hm : s.getD j zeroR ∈ s := getD_mem s j hj
   exact h.starts _ hm
 
 theorem CanonFrom.getD_wf {s : Set} {lo : Nat} (h : CanonFrom lo s) (j : Nat)
     (hj : j < s.length) : (s.getD j zeroR).WF := by
-  have hm : s.getD j zeroR ∈ s := by
-    rw [List.getD_eq_getElem s zeroR hj]; exact List.getElem_mem hj
+  have hm : s.getD j zeroR ∈ s := getD_mem s j hj
   exact h.wf _ hm
 
 /-- in a canonical set, every range before a given position is static and ends strictly below
